@@ -90,6 +90,18 @@ def run_case(case):
     if not e <= (1e-11 if prec == "double" else 5e-6):
         viol.append({"what": "background_is_not_a_uniform_offset", "rel": e, "bg": bg, "precision": prec, "analytic": analytic,
                      "spread": float(np.ptp(off)), "setup": desc})
+    # the zero source (a night-time step, a masked map): the linear map sends (0, bg) to a uniform bg and no flux, on the input grid
+    pz, fz = run(np.zeros((ny, nx)), bg_arg)
+    counters["zero_source_runs"] = counters.get("zero_source_runs", 0) + 1
+    if pz.shape != (nl, ny, nx) or fz.shape != (nl, ny, nx):
+        viol.append({"what": "zero_source_not_mapped_to_uniform_background", "shapes": (pz.shape, fz.shape), "expected": (nl, ny, nx), "bg": bg,
+                     "precision": prec, "analytic": analytic, "setup": desc})
+    else:
+        ez = float(np.max(np.abs(pz - bg))) / (abs(bg) or 1.0)
+        efz = float(np.max(np.abs(fz)))
+        if not ez <= (1e-12 if prec == "double" else 1e-6) or not efz <= 1e-300:
+            viol.append({"what": "zero_source_not_mapped_to_uniform_background", "conc_minus_bg_rel": ez, "max_abs_flux": efz, "bg": bg,
+                         "precision": prec, "analytic": analytic, "setup": desc})
     # footprint mode: only the shape of the surface-flux array matters
     with np.errstate(all="ignore"):
         ref = run(np.zeros((ny, nx)), 0.0, footprint=True)
